@@ -27,12 +27,13 @@ theorem addMove_qkeep {w : World} (hI : IdxInv w) {e : Ent} {oldT row newT : Nat
 /-- `setRelations e rels` on success (hypotheses of `setRelationsCore_spec`) -/
 theorem setRelationsCore_qkeep (run : ProbeRunner) {w : World} {fl : List Nat} (h : TInv w fl)
     (hl : w.isLocked = false) (hno : ∀ (evt : Nat), w.obs.hasObservers evt = false) {e : Ent}
-    (h2 : 2 ≤ e.id) (hnf : e.id ∉ fl) (ha : w.alive e = true) {rels : List RelID}
+    (h2 : 2 ≤ e.id) (hnf : e.id ∉ fl) (ha : w.alive e = true)
+    (hsl : e.id < w.pool.ents.length) {rels : List RelID}
     (hne : rels.isEmpty = false) (hnd : (rels.map (·.comp)).Nodup)
     (hhas : ∀ (r : RelID), r ∈ rels → (targetOf w e.id r.comp).isSome = true)
     (hrows : w.entities.length + 1 < 2 ^ 32)
     {w' : World} (hok : setRelationsCore run e rels w = .ok () w') : QKeep w w' := by
-  obtain ⟨oldT, row, he, htm, _⟩ := h.link.live_entry h2 hnf ha
+  obtain ⟨oldT, row, he, htm, _⟩ := h.link.live_entry h2 hnf ha hsl
   have hix := index_of_get he
   have hI := h.link.idx
   obtain ⟨hT, hrow, hid⟩ := hI.indexed he htm
@@ -115,7 +116,8 @@ theorem setRelationsCore_qkeep (run : ProbeRunner) {w : World} {fl : List Nat} (
 /-- `SetRelations` through the API on success -/
 theorem opSetRelations_qkeep (run : ProbeRunner) (p : Path) {w : World} {fl : List Nat}
     (h : TInv w fl) (hl : w.isLocked = false) (hno : ∀ (evt : Nat), w.obs.hasObservers evt = false)
-    {e : Ent} (h2 : 2 ≤ e.id) (hnf : e.id ∉ fl) (ha : w.alive e = true) {mapperIds : List Comp}
+    {e : Ent} (h2 : 2 ≤ e.id) (hnf : e.id ∉ fl) (ha : w.alive e = true)
+    (hsl : e.id < w.pool.ents.length) {mapperIds : List Comp}
     {rels : List RelID} (hne : rels.isEmpty = false) (hnd : (rels.map (·.comp)).Nodup)
     (hhas : ∀ (r : RelID), r ∈ rels → (targetOf w e.id r.comp).isSome = true)
     (hrows : w.entities.length + 1 < 2 ^ 32)
@@ -125,7 +127,7 @@ theorem opSetRelations_qkeep (run : ProbeRunner) (p : Path) {w : World} {fl : Li
     · exact h1
     · simp [opSetRelations, bind, M.bind, h1] at hok
   simp only [opSetRelations, bind, M.bind, hpre] at hok
-  exact setRelationsCore_qkeep run h hl hno h2 hnf ha hne hnd hhas hrows hok
+  exact setRelationsCore_qkeep run h hl hno h2 hnf ha hsl hne hnd hhas hrows hok
 
 /-- **`SetRelations` keeps `QGood`** (any path; hypotheses of `Good.setRelations`) -/
 theorem QGood.setRelations (run : ProbeRunner) (p : Path) {w : World} (q : QGood w) {e : Ent}
@@ -133,10 +135,11 @@ theorem QGood.setRelations (run : ProbeRunner) (p : Path) {w : World} (q : QGood
     {mapperIds : List Comp} {rels : List RelID} (hne : rels.isEmpty = false)
     (hnd : (rels.map (·.comp)).Nodup)
     (hhas : ∀ (r : RelID), r ∈ rels → (targetOf w e.id r.comp).isSome = true)
+    (htin : ∀ (r : RelID), r ∈ rels → r.target.id < w.pool.ents.length)
     (hfew : w.tables.length < maxU32) (hrows : w.entities.length + 1 < 2 ^ 32)
     (hnp : panicOf (opSetRelations run p e mapperIds rels w) = none) :
     QGood (opSetRelations run p e mapperIds rels w).state := by
-  have good' := q.good.setRelations run p ha hidx hlt hne hnd hhas hfew hrows hnp
+  have good' := q.good.setRelations run p ha hidx hlt hne hnd hhas htin hfew hrows hnp
   obtain ⟨fl, ht, hl, hno⟩ := q.good
   have hent : w.entities[e.id]? = some ((w.index e.id).1, (w.index e.id).2) := by
     simp only [World.index, List.getD_eq_getElem?_getD, List.getElem?_eq_getElem hlt,
@@ -144,20 +147,22 @@ theorem QGood.setRelations (run : ProbeRunner) (p : Path) {w : World} (q : QGood
   obtain ⟨h2, hnf⟩ := ht.link.indexed_live hent hidx
   obtain ⟨u, hr⟩ := ok_of_panicOf hnp
   generalize (opSetRelations run p e mapperIds rels w).state = w' at hr good' ⊢
-  have post := opSetRelations_spec run p ht hl hno h2 hnf ha hne hnd hhas hfew hrows hr
-  have qk := opSetRelations_qkeep run p ht hl hno h2 hnf ha hne hnd hhas hrows hr
+  have hsl : e.id < w.pool.ents.length := by rw [← ht.link.lenEq]; exact hlt
+  have post := opSetRelations_spec run p ht hl hno h2 hnf ha hsl hne hnd hhas htin hfew hrows hr
+  have qk := opSetRelations_qkeep run p ht hl hno h2 hnf ha hsl hne hnd hhas hrows hr
   exact ⟨good', qk.cidx q.cidx, qk.rows q.rows, by rw [post.locks]; exact q.lock⟩
 
 /-- `Add(e, ids…, rels…)` on success (hypotheses of `opAdd_rel_spec`) -/
 theorem opAdd_qkeep (run : ProbeRunner) (p : Path) {w : World} {fl : List Nat} (h : TInv w fl)
     (hl : w.isLocked = false) (hno : ∀ (evt : Nat), w.obs.hasObservers evt = false) {e : Ent}
-    (h2 : 2 ≤ e.id) (hnf : e.id ∉ fl) (ha : w.alive e = true) {ids : List Comp}
+    (h2 : 2 ≤ e.id) (hnf : e.id ∉ fl) (ha : w.alive e = true)
+    (hsl : e.id < w.pool.ents.length) {ids : List Comp}
     {vals : List (Comp × Val)} {rels : List RelID}
     (hreg : ∀ (c : Comp), c ∈ ids → c < w.kinds.length)
     (hnd : (rels.map (·.comp)).Nodup) (hin : ∀ (r : RelID), r ∈ rels → r.comp ∈ ids)
     (hrows : w.entities.length + 1 < 2 ^ 32)
     {w' : World} (hok : opAdd run p e ids vals rels w = .ok () w') : QKeep w w' := by
-  obtain ⟨oldT, row, he, htm, _⟩ := h.link.live_entry h2 hnf ha
+  obtain ⟨oldT, row, he, htm, _⟩ := h.link.live_entry h2 hnf ha hsl
   have hix := index_of_get he
   have hI := h.link.idx
   obtain ⟨hT, hrow, hid⟩ := hI.indexed he htm
@@ -242,10 +247,11 @@ theorem QGood.add (run : ProbeRunner) (p : Path) {w : World} (q : QGood w) {e : 
     (hreg : ∀ (c : Comp), c ∈ ids → c < w.kinds.length)
     (hnd : (rels.map (·.comp)).Nodup) (hin : ∀ (r : RelID), r ∈ rels → r.comp ∈ ids)
     (hrc : ∀ (r : RelID), r ∈ rels → w.isRelComp r.comp = true)
+    (htin : ∀ (r : RelID), r ∈ rels → r.target.id < w.pool.ents.length)
     (hfew : w.tables.length < maxU32) (hrows : w.entities.length + 1 < 2 ^ 32)
     (hnp : panicOf (opAdd run p e ids vals rels w) = none) :
     QGood (opAdd run p e ids vals rels w).state := by
-  have good' := q.good.add run p ha hidx hlt hreg hnd hin hrc hfew hrows hnp
+  have good' := q.good.add run p ha hidx hlt hreg hnd hin hrc htin hfew hrows hnp
   obtain ⟨fl, ht, hl, hno⟩ := q.good
   have hent : w.entities[e.id]? = some ((w.index e.id).1, (w.index e.id).2) := by
     simp only [World.index, List.getD_eq_getElem?_getD, List.getElem?_eq_getElem hlt,
@@ -253,8 +259,9 @@ theorem QGood.add (run : ProbeRunner) (p : Path) {w : World} (q : QGood w) {e : 
   obtain ⟨h2, hnf⟩ := ht.link.indexed_live hent hidx
   obtain ⟨u, hr⟩ := ok_of_panicOf hnp
   generalize (opAdd run p e ids vals rels w).state = w' at hr good' ⊢
-  have post := opAdd_rel_spec run p ht hl hno h2 hnf ha hreg hnd hin hrc hfew hrows hr
-  have qk := opAdd_qkeep run p ht hl hno h2 hnf ha hreg hnd hin hrows hr
+  have hsl : e.id < w.pool.ents.length := by rw [← ht.link.lenEq]; exact hlt
+  have post := opAdd_rel_spec run p ht hl hno h2 hnf ha hsl hreg hnd hin hrc htin hfew hrows hr
+  have qk := opAdd_qkeep run p ht hl hno h2 hnf ha hsl hreg hnd hin hrows hr
   exact ⟨good', qk.cidx q.cidx, qk.rows q.rows, by rw [post.locks]; exact q.lock⟩
 
 end QueryRel
